@@ -40,6 +40,59 @@ def describe(s):
             "segments": len(s.packets)}
 
 
+
+def stf_twin(ms, E):
+    """Python twin of Proofs/PlainHsP.stf: the bookkeeping state after E bytes of the flight ms (C01_plain_handshake_flight)"""
+    for t, body in ms:
+        n = 4 + len(body)
+        if E < 4:
+            return (0, (bytes([t]) + len(body).to_bytes(3, "big") + body)[:E])
+        if E < n:
+            return (n - E, b"")
+        E -= n
+    return (0, b"")
+
+
+def real_flight(ms, cuts, srv):
+    """a flight of plaintext handshake messages, its byte stream cut into records at `cuts`, through a real Session: per record the
+    (pending, partial) the session remembers afterwards and the handler that saw the record; 'Exn X' / 'gone X' when that cannot be observed"""
+    from tlexport.packet import Packet
+    from tlexport.session import Session
+    from ref import synth
+    C_MAC, S_MAC, C_IP, S_IP = b"\x02\x00\x00\x00\x00\x01", b"\x02\x00\x00\x00\x00\x02", b"\x0a\x00\x00\x01", b"\x0a\x00\x00\x02"
+    stream = b"".join(bytes([t]) + len(b).to_bytes(3, "big") + b for t, b in ms)
+    pts = [0] + sorted(cuts) + [len(stream)]
+    recs = [b"\x16\x03\x03" + len(stream[a:b]).to_bytes(2, "big") + stream[a:b] for a, b in zip(pts, pts[1:])]
+    src, dst = ((S_MAC, S_IP, 443), (C_MAC, C_IP, 50000)) if srv else ((C_MAC, C_IP, 50000), (S_MAC, S_IP, 443))
+    seq, pk = 1000, []
+    for i, r in enumerate(recs):
+        pk.append(Packet(synth.tcp_frame(src[0], dst[0], src[1], dst[1], src[2], dst[2], seq, 0, 0x18, r), 1000.0 + i))
+        seq += len(r)
+    out = []
+    try:
+        s = Session(pk[0], [443], [], {}, True, False)
+        for name in ("handshake_pending", "handshake_partial", "handle_tls_handshake_record", "handle_tls_client_hello", "handle_tls_server_hello", "handle_handshake_finished"):
+            if not hasattr(s, name):
+                return "gone " + name
+        for p in pk[1:]:
+            if s.matches_session(p):
+                s.handle_packet(p)
+        seen = []
+        for name in ("handle_tls_client_hello", "handle_tls_server_hello", "handle_handshake_finished"):
+            setattr(s, name, (lambda nm: (lambda *a, **k: seen.append(nm)))(name))
+        inner = s.handle_tls_handshake_record
+
+        def wrapped(record, isserver):
+            del seen[:]
+            inner(record, isserver)
+            out.append((s.handshake_pending[bool(isserver)], bytes(s.handshake_partial[bool(isserver)]), seen[0] if seen else "-"))
+        s.handle_tls_handshake_record = wrapped
+        s.get_tls_records()
+    except Exception as e:
+        return "Exn " + type(e).__name__
+    return out
+
+
 def replay(path):
     r = json.load(open(path))
     impl = Impl()
@@ -134,6 +187,42 @@ def main():
             if mt != it:
                 disagreements.append({"what": "%s 0x%04X fragmented plaintext flight" % (ver, code), "model": mt[:120], "impl": it[:120], "capture": s.capture.hex(), "keylog": s.keylog})
         ck.case(("tls12-fragmented", code, s.capture[:64]))
+    # the plaintext-handshake bookkeeping at the function level: a real Session against stf (the model's hs_step is proved equal to it for
+    # every cut: C01_plain_handshake_flight) and the dispatch rule (C01_plain_handshake_dispatch)
+    for rep in range(150 if ck.tier == "quick" else 3000):
+        srv = bool(rng.randrange(2))
+        ms = []
+        for _ in range(rng.randrange(1, 6)):
+            t = rng.choice([11, 12, 13, 14, 16, 4, 1, 2, 2])
+            body = bytes(rng.choice([1, 2, 0, 22, rng.randrange(256)]) for _ in range(rng.choice([0, 1, 3, 4, 5, 40, 70, 300])))
+            ms.append((t, body))
+        total = sum(4 + len(b) for _, b in ms)
+        cuts = sorted(set(rng.randrange(1, total) for _ in range(rng.choice([0, 1, 2, 4, 9])))) if total > 1 else []
+        got = real_flight(ms, cuts, srv)
+        pts = [0] + cuts + [total]
+        exp, starts, o = [], {}, 0
+        for t, b in ms:
+            starts[o] = t
+            o += 4 + len(b)
+        for a, b_ in zip(pts, pts[1:]):
+            st_ = stf_twin(ms, b_)
+            disp = {1: "handle_tls_client_hello", 2: "handle_tls_server_hello"}.get(starts[a], "handle_handshake_finished") if a in starts else "-"
+            exp.append((st_[0], st_[1], disp))
+        hist["plain_flight_cuts=%d" % len(cuts)] += 1
+        ck.case(("plain-flight", tuple(ms), tuple(cuts), srv), sample=({"messages": [(t, len(b)) for t, b in ms], "cuts": cuts, "states": [(p, q.hex(), d) for p, q, d in exp]} if rep % 61 == 0 else None))
+        if got != exp:
+            if isinstance(got, str):
+                disagreements.append({"what": "plaintext handshake bookkeeping: observation point " + got, "model": str(exp)[:120], "impl": got})
+            else:
+                bad = next(i for i, (g, e) in enumerate(zip(got + [None], exp + [None])) if g != e)
+                wrong_dispatch = bad < len(got) and bad < len(exp) and got[bad][2] != exp[bad][2] and exp[bad][2] in ("-", "handle_tls_client_hello", "handle_tls_server_hello")
+                item = {"what": "plaintext handshake flight %s cut at %s (%s): record %d: session has (pending, partial, handler) = %s, the flight dictates %s" % (
+                    [(t, len(b)) for t, b in ms], cuts, "server" if srv else "client", bad, got[bad] if bad < len(got) else None, exp[bad] if bad < len(exp) else None),
+                    "messages": [(t, b.hex()) for t, b in ms], "cuts": cuts}
+                if wrong_dispatch or (got[-1][:2] != exp[-1][:2] if got and exp else False):
+                    fails.append(item)           # a record read as a hello although it does not begin with one (or the reverse), or a flight that leaves the walk out of step
+                else:
+                    disagreements.append(dict(item, model=str(exp[bad])[:120] if bad < len(exp) else "", impl=str(got[bad])[:120] if bad < len(got) else ""))
     if m:
         ck.cov["oracle_queries"] = m.queries
         ck.cov["model_runs_skipped"] = m.skipped
